@@ -31,6 +31,8 @@ type Profile struct {
 	TailQuiet bool // the adversary is silent in the tail
 	TailProp  string // property under which tail violations are reported (default C05)
 	CommitFailures bool // one node's commit callback fails at PRNG-determined heights
+	SyncPct   int  // node-sync steps per hundred (0: default 0..2)
+	SplitHandoff bool // model the main-loop -> worker hand-off of syncs and election triggers as two separate steps
 	LenientValidators bool // in a third of the cases the consumers' validators do not object to a missing block
 	NoRejects bool // correct validators never reject good blocks
 	HonestOnly bool // no Byzantine ids at all
@@ -205,6 +207,7 @@ func RunCase(seed int64, p *Profile, idx int) *Result {
 	cfg := GenConfig(rng, p)
 	w := NewWorld(cfg, rng)
 	w.KeepTrace = p.KeepTrace
+	w.SplitHandoff = p.SplitHandoff
 	res := &Result{Case: idx, Seed: cs, Cfg: cfg, StateSet: map[[16]byte]bool{}}
 	adv := NewAdversary(w, p)
 	// consumer-side rejections of good blocks (allowed behaviour)
@@ -232,6 +235,9 @@ func RunCase(seed int64, p *Profile, idx int) *Result {
 	s := &sched{pDrop: rng.Intn(12), pDup: rng.Intn(10), pTimeout: 1 + rng.Intn(8), pSync: rng.Intn(3)}
 	if p.CommitFailures {
 		s.pSync = 2 + rng.Intn(6)
+	}
+	if p.SyncPct > 0 {
+		s.pSync = p.SyncPct/2 + rng.Intn(p.SyncPct+1)
 	}
 	if p.Adversary {
 		s.pAdv = 5 + rng.Intn(25)
@@ -262,6 +268,8 @@ func RunCase(seed int64, p *Profile, idx int) *Result {
 		}
 	}
 	res.Steps = step
+	w.DrainPending()
+	w.SplitHandoff = false
 	if p.Tail {
 		RunTail(w, adv, p, res)
 	}
@@ -296,6 +304,17 @@ func (w *World) deliverable(s *sched, f *Flight, step int) bool {
 // randomStep performs one scheduler step and returns a short tag of what it did.
 func (w *World) randomStep(s *sched, adv *Adversary, step int) string {
 	r := w.Rng
+	if w.SplitHandoff && r.Intn(4) == 0 {
+		n := w.Nodes[w.Order[r.Intn(len(w.Order))]]
+		if n.pendSync != nil || n.pendTrig != nil {
+			if n.pendSync != nil && (n.pendTrig == nil || r.Intn(2) == 0) {
+				w.WorkerTakeSync(n)
+				return "ws" + n.Id
+			}
+			w.WorkerTakeTrigger(n)
+			return "wt" + n.Id
+		}
+	}
 	roll := r.Intn(100)
 	if roll < s.pAdv && adv != nil && adv.Active() {
 		return "a" + adv.Step()
